@@ -53,6 +53,17 @@ def gen_cases(tier, seed):
                         continue
                     cases.append({'shape': shape, 'size': size, 'stop': stop, 'fail': fail, 'n': L,
                                   'fuzz_seed': rng.randrange(1 << 30)})
+    # full cross product of stop position x source-failure position for the producer/consumer hand-offs: which element the
+    # producer holds when the consumer stops, and what its next fetch does, is exactly what the clean-up protocols depend on
+    for shape in ('fifo-pre', 'buffer', 'parmap-thread', 'abuffer', 'aparmap'):
+        for size in (1, 2, 3):
+            for kind in ('break', 'close'):
+                for spos in range(0, L):
+                    for fpos in range(spos, L + 1):
+                        for fk in ('Boom', 'StopRequested'):
+                            for rep in range(2):
+                                cases.append({'shape': shape, 'size': size, 'stop': (kind, spos), 'fail': ('source', fpos, fk), 'n': L,
+                                              'fuzz_seed': rng.randrange(1 << 30), 'xprod': True})
     # short sources
     for shape in SHAPES:
         for n in (0, 1, 2):
